@@ -52,6 +52,9 @@ def is_type_gate(test, func, raising_when_true):
 def run(ctx):
     f = ctx.repo.func('array.asarray')
     gen = ctx.repo.func('array._archunkgenerator')
+    # an empty source (Darr array or sequence) keeps its dtype and trailing shape: shared with C15
+    from .C15 import chunk_generator_rules
+    chunk_generator_rules(ctx, 'D3', 'D3')
     # D1
     GA = GateAnalysis(ctx, PredGate('supported-type gate', is_type_gate, {'TypeError'}))
     sites = GA.gated_sites(f, _mut_site)
